@@ -4,8 +4,12 @@
    sanity theorems of Classify and prints one case per IETF version-list state (C12 replay). *)
 EXTENDS Request, Json, Integers
 
-CONSTANTS MaxVer
-VerCodes == {13, 0, 1001, 1002}
+CONSTANTS MaxVer,
+          VerCodes     \* version codes of the lists: 13 = draft-13, 0 = classic, >= 1001 unknown numbers.
+                       \* The unknown numbers 1003..1010 are ADVERSARIAL representatives (the interpretation maps them to
+                       \* words whose bytes contain parts of the draft-13 number: pairs (1003,1004), (1005,1006), (1007,1008)
+                       \* contain it across their boundary at byte offsets 1, 2, 3; 1009 is the number without its top bit,
+                       \* 1010 its byte-swapped form). To the specification they are simply not draft-13.
 
 VARIABLES ver, srv, len, noncelen, done
 vars == <<ver, srv, len, noncelen, done>>
